@@ -1,6 +1,7 @@
 """Stubbed pKa source shared by the checks: replaces main.run_propka by a table the harness chose (PROPKA-style rows),
 records the real PROPKA rows when no table is set, and captures what the titration stage was handed and logged."""
 import contextlib
+import os
 import random
 
 from .. import pipeline
@@ -24,6 +25,14 @@ def install():
             rows, text = STUB["orig"](args, biomolecule)
             STUB["real_rows"] = [dict(r) for r in rows]
             return rows, text
+        # The stub replaces the pKa *values*, not the procedure: the real routine still runs first (it serialises the
+        # structure for PROPKA - a step of the pipeline with its own effects) and only its table is discarded.
+        if os.environ.get("VERIF_PKASTUB_REAL", "1") != "0":
+            try:
+                STUB["orig"](args, biomolecule)
+                STUB["real_calls"] = STUB.get("real_calls", 0) + 1
+            except Exception:  # noqa: BLE001  (PROPKA cannot digest every generated structure; the table is served anyway)
+                STUB["real_failures"] = STUB.get("real_failures", 0) + 1
         return [dict(r) for r in STUB["table"]], "stubbed pKa table"
 
     pmain.run_propka = run_propka
